@@ -23,4 +23,21 @@ theorem percent_roundtrip (bs : Bytes) : Percent.decode (Percent.encode bs) = bs
 theorem percent_alphabet (bs : Bytes) (x : UInt8) (h : x ∈ Percent.encode bs) : Percent.isAlnum x = true ∨ x = Percent.PCT :=
   Percent.encode_alphabet bs x h
 
+/-- **Numbers are read per the percent-encoding rules too**: whatever way a client spells a number — any of its digits or its sign written as `%XX` —
+the reader reads the number its percent-decoding denotes: if the section (free of `&` and `=`, followed by `&` or the end) decodes to the canonical
+decimal of an in-range `z`, the unsigned / signed reader answers `z`.  (Before fix 2c45ee6 numbers and booleans were read from the raw text and
+`id=%37` was refused.) -/
+theorem escaped_number_decodes (sec rest : Bytes) (fuel bits : Nat) (z : Int) (hc : Clean sec) (hs : Stop rest)
+    (hd : Percent.decode sec = showInt z) :
+    (0 ≤ z → z < 2 ^ bits → decode prims false (fuel + 1) (.uint bits) ⟨sec ++ rest, .value⟩ = .ok (.int z, ⟨rest, .value⟩)) ∧
+    (-(2 ^ (bits - 1) : Int) ≤ z → z < 2 ^ (bits - 1) → decode prims false (fuel + 1) (.sint bits) ⟨sec ++ rest, .value⟩ = .ok (.int z, ⟨rest, .value⟩)) := by
+  have hpd : prims.percentDecode sec = showInt z := hd
+  refine ⟨fun h0 h1 => ?_, fun h0 h1 => ?_⟩
+  · simp only [decode, sectionOr_value _ _ rest hc hs, ok_bind, hpd, prims_ok.intUtf8, if_true, prims_ok.intU _ z h0 h1, pure_eq]
+  · simp only [decode, sectionOr_value _ _ rest hc hs, ok_bind, hpd, prims_ok.intUtf8, if_true, prims_ok.intS _ z h0 h1, pure_eq]
+
+/-- the hypothesis is met by a spelling with escapes: `%2D1%32` denotes -12 -/
+example : Percent.decode [37, 50, 68, 49, 37, 51, 50] = [45, 49, 50] ∧ showInt (Int.negSucc 11) = [45, 49, 50] := by
+  refine ⟨by simp [Percent.decode, Percent.unhex, Percent.PCT], by decide⟩
+
 end C09
